@@ -288,7 +288,8 @@ impl Property for C03 {
 
         // ---------------- instance level ----------------
         ctx.label("level=instance");
-        let cfg = InstCfg::new(regime);
+        let mut cfg = InstCfg::new(regime);
+        cfg.kinds.extend([4, 5]);
         let gi = gen_instance(t, &cfg, ctx);
         let include_irrelevant = t.coin();
         let state = gen_inst_state(t, &gi, regime, include_irrelevant);
